@@ -1,9 +1,11 @@
-(* C05 — proofs about the scheduler model (C05/Model.v) against the specification (C05/Spec.v).
-   Everything is inside one Section over an ABSTRACT schedule [next] with the single hypothesis
-   the Schedule interface documents ("Next returns the next activation time, later than the
-   given time"); after the Section closes it is an explicit premise of every theorem. *)
+(* C05 — proofs about the scheduler model (C05/Model.v): never early, no duplicate, once per
+   wake-up, none skipped, timer = minimum, clean Remove / Stop, exact Entries, Stop's context,
+   restart.  Everything is inside one Section over an ABSTRACT schedule [next] with the single
+   hypothesis the Schedule interface documents ("Next returns the next activation time, later
+   than the given time"); after the Section closes it is an explicit premise of every theorem.
+   (The oracle's soundness is in Proofs_oracle.v.) *)
 From Coq Require Import Permutation Sorting.Sorted.
-From Kit Require Import C05.Model C05.Spec.
+From Kit Require Import C05.Model C05.Spec C05.Defs C05.ProofsBase.
 Local Open Scope Z_scope.
 
 Section Proofs.
@@ -18,54 +20,256 @@ Notation state := (state sched).
 Notation step := (step next).
 Notation run := (run next).
 Notation wf := (wf next).
-Notation trace := (trace next).
+Notation inv1 := (inv1 sched).
+Notation step_shape := (step_shape sched next).
 
-(* ghost-list helpers used in the statements *)
-Definition sid (x : Z * Z * Z) : Z := fst (fst x).
-Definition sact (x : Z * Z * Z) : Z := snd (fst x).
-Definition swake (x : Z * Z * Z) : Z := snd x.
-Definition of_id (i : Z) (l : list (Z * Z * Z)) : list (Z * Z * Z) := filter (fun x => sid x =? i) l.
-Definition acts_of (i : Z) (l : list (Z * Z * Z)) : list Z := map sact (of_id i l).
-Definition last_opt (l : list Z) : option Z :=
-  match rev l with [] => None | x :: _ => Some x end.
+(* ---------------------------------------------------------------------------------------- *)
+(* inversion of shapes for specific events *)
 
-(* an event that creates an entry: its id, schedule and initial (Next, Prev) *)
-Definition birth (s : state) (ev : event) : option (Z * sched * (option Z * option Z)) :=
-  match ev with
-  | Added t sc => Some (nextID s + 1, sc, (next sc t, None))
-  | ScheduleIdle sc => Some (nextID s + 1, sc, (None, None))
-  | _ => None
-  end.
+Lemma shape_wake (s s' : state) w : step_shape s s' (Wake w) ->
+  running s = true /\ running s' = true /\
+  entries s' = sort_entries (map (fire next w) (entries s)) /\
+  starts s' = starts s ++ map (srec sched w) (filter (due_at w) (entries s)) /\
+  nextID s' = nextID s /\ clk s' = w.
+Proof.
+  inversion 1 as [| | | |? Hd| | | | | |]; subst; [auto 10|].
+  destruct Hd as [Hd|[Hd|[Hd|Hd]]]; discriminate Hd.
+Qed.
 
-(* the job starts of one entry as a fold over wake-up / start instants alone *)
-Fixpoint tstarts (sc : sched) (st : option Z * option Z) (h : list event) : list (Z * Z) :=
-  match h with
-  | [] => []
-  | ev :: h' =>
-      (match ev, fst st with
-       | Wake w, Some a => if a <=? w then [(a, w)] else []
-       | _, _ => []
-       end) ++ tstarts sc (efire next sc st ev) h'
-  end.
+Lemma shape_start (s s' : state) t : step_shape s s' (Start t) ->
+  running s = false /\ running s' = true /\
+  entries s' = sort_entries (map (restart next t) (entries s)) /\
+  starts s' = starts s /\ nextID s' = nextID s /\ clk s' = t.
+Proof.
+  inversion 1 as [| | | |? Hd| | | | | |]; subst; [auto 10|].
+  destruct Hd as [Hd|[Hd|[Hd|Hd]]]; discriminate Hd.
+Qed.
 
-Definition is_start (ev : event) : bool := match ev with Start _ => true | _ => false end.
-Definition is_jobret (ev : event) : bool := match ev with JobRet => true | _ => false end.
+Lemma split3 h1 ev h2 (s0 s1 s2 : state) :
+  wf s0 (h1 ++ ev :: h2) = true -> run s0 h1 = Some s1 -> run s0 (h1 ++ ev :: h2) = Some s2 ->
+  wf s0 h1 = true /\
+  exists sE o, env_ok s1 ev = true /\ step s1 ev = Some (sE, o) /\ wf sE h2 = true /\ run sE h2 = Some s2.
+Proof.
+  intros Hw Hr1 Hr2. destruct (wf_app _ next _ _ _ _ Hw Hr1) as [Hw1 Hw2].
+  split; [exact Hw1|].
+  rewrite run_app, Hr1 in Hr2. cbn [Model.wf Model.run] in Hw2, Hr2.
+  apply andb_true_iff in Hw2 as [He Hw2].
+  destruct (step s1 ev) as [[sE o]|]; [|discriminate]. exists sE, o. auto.
+Qed.
 
-(* STATEMENTS — see Properties/C05.v for the plain-words reading of each. *)
+Lemma nodup_eid_inj (l : list entry) e e' : NoDup (map eid l) -> In e l -> In e' l -> eid e = eid e' -> e = e'.
+Proof.
+  induction l as [|z l IH]; intros Hnd Hin Hin' Heq; [destruct Hin|].
+  cbn [map] in Hnd. inversion Hnd as [|? ? Hz Hnd']; subst.
+  destruct Hin as [-> |Hin], Hin' as [-> |Hin'].
+  - reflexivity.
+  - exfalso. apply Hz. rewrite Heq. apply in_map. exact Hin'.
+  - exfalso. apply Hz. rewrite <- Heq. apply in_map. exact Hin.
+  - apply IH; assumption.
+Qed.
 
-(* [wf] histories run to the end *)
-Lemma wf_run : forall h s, wf s h = true -> exists s', run s h = Some s'.
-Admitted.
+(* ---------------------------------------------------------------------------------------- *)
+(* second invariant: activations, wake-ups and the clock *)
+
+Record inv2 (s : state) : Prop := {
+  i2_times : forall x, In x (starts s) -> sact x <= swake x /\ swake x <= clk s;
+  i2_gap : forall e x n, In e (entries s) -> In x (starts s) -> sid x = eid e ->
+                         enxt e = Some n -> sact x < n;
+  i2_sorted : forall i, StronglySorted Z.lt (acts_of i (starts s));
+  i2_prev : forall e, In e (entries s) -> eprv e = last_opt (acts_of (eid e) (starts s))
+}.
+
+Lemma inv2_weaken (s s' : state) : inv2 s -> starts s' = starts s -> clk s <= clk s' ->
+  (forall e, In e (entries s') -> In e (entries s)) -> inv2 s'.
+Proof.
+  intros [Ht Hg Hs Hp] Hst Hc Hsub. constructor; rewrite ?Hst.
+  - intros x Hx. specialize (Ht x Hx). lia.
+  - intros e x n He. apply Hg. apply Hsub. exact He.
+  - exact Hs.
+  - intros e He. apply Hp. apply Hsub. exact He.
+Qed.
+
+Lemma acts_none i (l : list (Z * Z * Z)) : (forall x, In x l -> sid x <= i - 1) -> acts_of i l = [].
+Proof.
+  intro H. unfold acts_of. replace (of_id i l) with (@nil (Z * Z * Z)); [reflexivity|].
+  symmetry. apply of_id_nil_iff. intros x Hx. specialize (H x Hx). lia.
+Qed.
+
+(* a fresh entry (id = nextID + 1, Prev = zero) keeps the invariant *)
+Lemma inv2_fresh (s s' : state) sc nx : inv1 s -> inv2 s -> starts s' = starts s -> clk s <= clk s' ->
+  (forall e, In e (entries s') -> In e (entries s) \/ e = mkE (nextID s + 1) sc nx None) -> inv2 s'.
+Proof.
+  intros Hi [Ht Hg Hs Hp] Hst Hc Hsub. constructor; rewrite ?Hst.
+  - intros x Hx. specialize (Ht x Hx). lia.
+  - intros e x n He Hx Hid. destruct (Hsub e He) as [He'| ->]; [apply Hg; assumption|].
+    cbn [eid] in Hid. pose proof (i1_sids _ _ Hi x Hx). lia.
+  - exact Hs.
+  - intros e He. destruct (Hsub e He) as [He'| ->]; [apply Hp; exact He'|].
+    cbn [eid eprv]. rewrite acts_none; [reflexivity|].
+    intros x Hx. pose proof (i1_sids _ _ Hi x Hx). lia.
+Qed.
+
+Lemma inv2_step (s s' : state) ev o : inv1 s -> inv2 s -> env_ok s ev = true ->
+  step s ev = Some (s', o) -> inv2 s'.
+Proof.
+  intros Hi H2 Henv Hs. pose proof (shape _ next _ _ _ _ Hi Hs) as Hsh.
+  destruct Hsh as [t Hr Hr' He Hst Hid Hc Ho Hcx
+                  |w Hr Hr' He Hst Hid Hc Ho Hcx
+                  |t sc Hr Hr' He Hst Hid Hc Ho Hcx
+                  |t id Hr Hr' He Hst Hid Hc Ho Hcx
+                  |ev _ ->
+                  |Hr Hr' Ht He Hst Hid Hc Ho Hcx
+                  |sc Hr Hr' Ht He Hst Hid Hc Ho Hcx
+                  |id Hr Hr' Ht He Hst Hid Hc Ho Hcx
+                  |Hr Hr' Ht He Hst Hid Hc Ho Hcx
+                  |Hpos Hr' Ht He Hst Hid Hc Ho Hcx
+                  |c Hr' Ht He Hst Hid Hc Ho Hcx]; cbn [env_ok] in Henv.
+  - (* Start *)
+    apply Z.leb_le in Henv. destruct H2 as [Ht Hg Hso Hp].
+    constructor; rewrite ?Hst, ?He, ?Hc.
+    + intros x Hx. specialize (Ht x Hx). lia.
+    + intros e x n Hin Hx Hsid Hn. apply -> sort_in in Hin.
+      apply in_map_iff in Hin as [e0 [<- Hin]]. cbn [restart enxt] in Hn.
+      apply next_later in Hn. specialize (Ht x Hx). lia.
+    + exact Hso.
+    + intros e Hin. apply -> sort_in in Hin. apply in_map_iff in Hin as [e0 [<- Hin]].
+      cbn [restart eprv eid]. apply Hp. exact Hin.
+  - (* Wake *)
+    apply andb_true_iff in Henv as [Henv _]. apply Z.leb_le in Henv.
+    destruct H2 as [Ht Hg Hso Hp]. pose proof (i1_nodup _ _ Hi) as Hnd.
+    constructor; rewrite ?Hst, ?He, ?Hc.
+    + intros x Hx. apply in_app_or in Hx as [Hx|Hx].
+      * specialize (Ht x Hx). lia.
+      * apply in_map_iff in Hx as [e [<- Hin]]. apply filter_In in Hin as [_ Hd].
+        destruct (due_fire _ next _ _ Hd) as [_ [_ Hle]]. cbn. lia.
+    + intros e' x n Hin Hx Hsid Hn. apply -> sort_in in Hin.
+      apply in_map_iff in Hin as [e0 [<- Hin]]. rewrite fire_eid in Hsid.
+      destruct (due_at w e0) eqn:Hd.
+      * destruct (due_fire _ next _ _ Hd) as [Hf [_ Hle]]. rewrite Hf in Hn. cbn [enxt] in Hn.
+        apply next_later in Hn.
+        apply in_app_or in Hx as [Hx|Hx].
+        -- specialize (Ht x Hx). lia.
+        -- apply in_map_iff in Hx as [e [<- Hin']]. apply filter_In in Hin' as [_ Hd'].
+           destruct (due_fire _ next _ _ Hd') as [_ [_ Hle']]. cbn. lia.
+      * rewrite (not_due_fire _ next _ _ Hd) in Hn.
+        apply in_app_or in Hx as [Hx|Hx]; [eapply Hg; eassumption|].
+        apply in_map_iff in Hx as [e [<- Hin']]. apply filter_In in Hin' as [Hin' Hd'].
+        cbn in Hsid. rewrite (nodup_eid_inj _ _ _ Hnd Hin' Hin Hsid) in Hd'. congruence.
+    + intro i. rewrite acts_of_app.
+      destruct (in_dec Z.eq_dec i (map eid (entries s))) as [Hin|Hnin].
+      * apply in_map_iff in Hin as [e [<- Hin]].
+        unfold acts_of at 2. rewrite (of_id_new_in _ _ _ _ Hnd Hin).
+        destruct (due_at w e) eqn:Hd; cbn [map]; [|rewrite app_nil_r; apply Hso].
+        apply sorted_snoc; [apply Hso|].
+        apply Forall_forall. intros y Hy. unfold acts_of in Hy.
+        apply in_map_iff in Hy as [x [<- Hx]]. unfold of_id in Hx.
+        apply filter_In in Hx as [Hx Hsid]. apply Z.eqb_eq in Hsid.
+        destruct (due_fire _ next _ _ Hd) as [_ [Hn _]]. cbn. eapply Hg; eassumption.
+      * unfold acts_of at 2. rewrite (of_id_new_notin _ _ _ _ Hnin). cbn [map].
+        rewrite app_nil_r. apply Hso.
+    + intros e' Hin. apply -> sort_in in Hin. apply in_map_iff in Hin as [e0 [<- Hin]].
+      rewrite fire_eid, acts_of_app. unfold acts_of at 2. rewrite (of_id_new_in _ _ _ _ Hnd Hin).
+      destruct (due_at w e0) eqn:Hd.
+      * destruct (due_fire _ next _ _ Hd) as [Hf _]. rewrite Hf. cbn [eprv map].
+        rewrite last_opt_snoc. reflexivity.
+      * rewrite (not_due_fire _ next _ _ Hd). cbn [map]. rewrite app_nil_r. apply Hp. exact Hin.
+  - (* Added *)
+    apply Z.leb_le in Henv. eapply (inv2_fresh s s' sc (next sc t)); try eassumption; [lia|].
+    intros e Hin. rewrite He in Hin. apply -> sort_in in Hin.
+    apply in_app_or in Hin as [Hin|[<-|[]]]; auto.
+  - (* Removed *)
+    apply Z.leb_le in Henv. apply (inv2_weaken s); [assumption|assumption|lia|].
+    intros e Hin. rewrite He in Hin. apply -> sort_in in Hin. apply filter_In in Hin as [Hin _]. exact Hin.
+  - exact H2.
+  - apply (inv2_weaken s); [assumption|assumption|lia|]. rewrite He. auto.
+  - (* ScheduleIdle *)
+    eapply (inv2_fresh s s' sc None); try eassumption; [lia|].
+    intros e Hin. rewrite He in Hin. apply in_app_or in Hin as [Hin|[<-|[]]]; auto.
+  - apply (inv2_weaken s); [assumption|assumption|lia|].
+    intros e Hin. rewrite He in Hin. apply filter_In in Hin as [Hin _]. exact Hin.
+  - apply (inv2_weaken s); [assumption|assumption|lia|]. rewrite He. auto.
+  - apply (inv2_weaken s); [assumption|assumption|lia|]. rewrite He. auto.
+  - apply andb_true_iff in Henv as [Henv _]. apply Z.leb_le in Henv.
+    apply (inv2_weaken s); [assumption|assumption|lia|]. rewrite He. auto.
+Qed.
+
+(* third invariant: the outstanding-jobs counter and the contexts *)
+Definition inv3 (s : state) : Prop :=
+  0 <= outstanding s /\ (outstanding s = 0 -> Forall (fun b => b = true) (ctxs s)).
+
+Lemma all_true_map (l : list bool) : Forall (fun b => b = true) (map (fun _ => true) l).
+Proof. induction l; cbn [map]; constructor; auto. Qed.
+
+Lemma inv3_step (s s' : state) ev o : inv1 s -> inv3 s -> step s ev = Some (s', o) -> inv3 s'.
+Proof.
+  intros Hi [H0 Hc0] Hs. pose proof (shape _ next _ _ _ _ Hi Hs) as Hsh. unfold inv3.
+  destruct Hsh as [t Hr Hr' He Hst Hid Hc Ho Hcx
+                  |w Hr Hr' He Hst Hid Hc Ho Hcx
+                  |t sc Hr Hr' He Hst Hid Hc Ho Hcx
+                  |t id Hr Hr' He Hst Hid Hc Ho Hcx
+                  |ev _ ->
+                  |Hr Hr' Ht He Hst Hid Hc Ho Hcx
+                  |sc Hr Hr' Ht He Hst Hid Hc Ho Hcx
+                  |id Hr Hr' Ht He Hst Hid Hc Ho Hcx
+                  |Hr Hr' Ht He Hst Hid Hc Ho Hcx
+                  |Hpos Hr' Ht He Hst Hid Hc Ho Hcx
+                  |c Hr' Ht He Hst Hid Hc Ho Hcx]; rewrite ?Ho, ?Hcx; auto.
+  - split; [lia|]. intro Hz. apply Hc0. lia.
+  - split; [exact H0|]. intro Hz. apply Forall_app. split; [auto|].
+    constructor; [apply Z.eqb_eq; exact Hz|constructor].
+  - split; [exact H0|]. intro Hz. apply Forall_app. split; [auto|].
+    constructor; [apply Z.eqb_eq; exact Hz|constructor].
+  - split; [lia|]. intro Hz. rewrite Hz. cbn. apply all_true_map.
+Qed.
+
+Lemma inv2_init t0 : inv2 (init t0).
+Proof.
+  constructor; cbn [init entries starts clk].
+  - intros x [].
+  - intros e x n [].
+  - intro i. constructor.
+  - intros e [].
+Qed.
+
+Definition inv (s : state) : Prop := inv1 s /\ inv2 s /\ inv3 s.
+
+Lemma inv_step (s s' : state) ev o : inv s -> env_ok s ev = true -> step s ev = Some (s', o) -> inv s'.
+Proof.
+  intros [H1 [H2 H3]] He Hs. split; [|split].
+  - eapply inv1_step; eassumption.
+  - eapply inv2_step; eassumption.
+  - eapply inv3_step; eassumption.
+Qed.
+
+Lemma inv_run h (s s' : state) : inv s -> wf s h = true -> run s h = Some s' -> inv s'.
+Proof. apply (run_ind _ next inv). intros; eapply inv_step; eassumption. Qed.
+
+Lemma inv_init t0 : inv (init t0).
+Proof.
+  split; [apply inv1_init|split; [apply inv2_init|]].
+  split; cbn [init outstanding ctxs]; [lia|constructor].
+Qed.
+
+Lemma reach t0 h (s : state) : wf (init t0) h = true -> run (init t0) h = Some s -> inv s.
+Proof. apply inv_run. apply inv_init. Qed.
+
+(* ---------------------------------------------------------------------------------------- *)
+(* THEOREMS — see Properties/C05.v for the plain-words reading of each. *)
 
 (* --- never early ------------------------------------------------------------------------ *)
 Theorem never_early : forall t0 h s, wf (init t0) h = true -> run (init t0) h = Some s ->
   forall i a w, In (i, a, w) (starts s) -> a <= w.
-Admitted.
+Proof.
+  intros t0 h s Hw Hr i a w Hin. destruct (reach _ _ _ Hw Hr) as [_ [H2 _]].
+  apply (i2_times _ H2 _ Hin).
+Qed.
 
 (* --- no duplicate: per entry the activations started are strictly increasing -------------- *)
 Theorem no_duplicate : forall t0 h s, wf (init t0) h = true -> run (init t0) h = Some s ->
   forall i, StronglySorted Z.lt (acts_of i (starts s)).
-Admitted.
+Proof.
+  intros t0 h s Hw Hr i. destruct (reach _ _ _ Hw Hr) as [_ [H2 _]]. apply (i2_sorted _ H2).
+Qed.
 
 (* --- once per wake ---------------------------------------------------------------------- *)
 Theorem once_per_wake : forall t0 h w s s',
@@ -83,18 +287,60 @@ Theorem once_per_wake : forall t0 h w s s',
        end) /\
     (forall i a w', In (i, a, w') new ->
        w' = w /\ exists e, In e (entries s) /\ eid e = i /\ enxt e = Some a /\ a <= w).
-Admitted.
+Proof.
+  intros t0 h w s s' Hw Hr Hr'.
+  destruct (run_snoc _ next _ _ _ _ Hw Hr') as [s1 [o [Hr1 [Hw1 [Henv Hs]]]]].
+  rewrite Hr in Hr1. inversion Hr1; subst s1; clear Hr1.
+  destruct (reach _ _ _ Hw1 Hr) as [H1 _].
+  destruct (shape_wake _ _ _ (shape _ next _ _ _ _ H1 Hs)) as [_ [_ [He [Hst _]]]].
+  exists (map (srec sched w) (filter (due_at w) (entries s))). split; [exact Hst|]. split.
+  - intros e Hin. pose proof (of_id_new_in _ w _ _ (i1_nodup _ _ H1) Hin) as Hof.
+    assert (Hfin : In (fire next w e) (entries s')).
+    { rewrite He. apply sort_in. apply in_map. exact Hin. }
+    destruct (enxt e) as [a|] eqn:Ea.
+    + destruct (a <=? w) eqn:Ew.
+      * assert (Hd : due_at w e = true) by (unfold due_at; rewrite Ea; exact Ew).
+        rewrite Hd in Hof. destruct (due_fire _ next _ _ Hd) as [Hf _].
+        rewrite Hf in Hfin. unfold srec, act in Hof. unfold act in Hfin. rewrite Ea in Hof, Hfin. auto.
+      * assert (Hd : due_at w e = false) by (unfold due_at; rewrite Ea; exact Ew).
+        rewrite Hd in Hof. rewrite (not_due_fire _ next _ _ Hd) in Hfin. auto.
+    + assert (Hd : due_at w e = false) by (unfold due_at; rewrite Ea; reflexivity).
+      rewrite Hd in Hof. rewrite (not_due_fire _ next _ _ Hd) in Hfin. auto.
+  - intros i a w' Hin. apply in_map_iff in Hin as [e [Heq Hin]].
+    apply filter_In in Hin as [Hin Hd]. destruct (due_fire _ next _ _ Hd) as [_ [Hn Hle]].
+    unfold srec in Heq. inversion Heq; subst. split; [reflexivity|].
+    exists e. auto.
+Qed.
 
 (* --- none skipped ----------------------------------------------------------------------- *)
 Theorem none_skipped_wake : forall t0 h w s',
   wf (init t0) (h ++ [Wake w]) = true -> run (init t0) (h ++ [Wake w]) = Some s' ->
   forall e n, In e (entries s') -> enxt e = Some n -> w < n.
-Admitted.
+Proof.
+  intros t0 h w s' Hw Hr' e n Hin Hn.
+  destruct (run_snoc _ next _ _ _ _ Hw Hr') as [s [o [Hr [Hw1 [Henv Hs]]]]].
+  destruct (reach _ _ _ Hw1 Hr) as [H1 _].
+  destruct (shape_wake _ _ _ (shape _ next _ _ _ _ H1 Hs)) as [_ [_ [He _]]].
+  rewrite He in Hin. apply -> sort_in in Hin. apply in_map_iff in Hin as [e0 [<- Hin]].
+  destruct (due_at w e0) eqn:Hd.
+  - destruct (due_fire _ next _ _ Hd) as [Hf _]. rewrite Hf in Hn. cbn [enxt] in Hn.
+    apply next_later in Hn. exact Hn.
+  - rewrite (not_due_fire _ next _ _ Hd) in Hn. unfold due_at in Hd. rewrite Hn in Hd.
+    apply Z.leb_gt in Hd. exact Hd.
+Qed.
 
 Theorem none_skipped_tick : forall t0 h c s,
   wf (init t0) (h ++ [Tick c]) = true -> run (init t0) h = Some s -> running s = true ->
   forall e n, In e (entries s) -> enxt e = Some n -> c < n.
-Admitted.
+Proof.
+  intros t0 h c s Hw Hr Hrun e n Hin Hn.
+  destruct (wf_app _ next _ _ _ _ Hw Hr) as [Hw1 Hw2].
+  cbn [Model.wf env_ok] in Hw2. apply andb_true_iff in Hw2 as [Henv _].
+  apply andb_true_iff in Henv as [_ Henv].
+  destruct (reach _ _ _ Hw1 Hr) as [H1 _]. destruct (i1_run _ _ H1 Hrun) as [Hso Htm].
+  destruct (sorted_head _ _ _ _ Hso Hin Hn) as [T [HT Hle]].
+  rewrite Htm, HT in Henv. apply Z.ltb_lt in Henv. lia.
+Qed.
 
 (* --- the armed timer is the minimum ------------------------------------------------------- *)
 Theorem timer_is_min : forall t0 h s, wf (init t0) h = true -> run (init t0) h = Some s ->
@@ -102,33 +348,134 @@ Theorem timer_is_min : forall t0 h s, wf (init t0) h = true -> run (init t0) h =
   then (forall e n, In e (entries s) -> enxt e = Some n -> exists T, timer s = Some T /\ T <= n) /\
        (forall T, timer s = Some T -> exists e, In e (entries s) /\ enxt e = Some T)
   else timer s = None.
-Admitted.
-
-(* --- independence ----------------------------------------------------------------------- *)
-Theorem independent : forall t0 h1 ev h2 s1 s2 id sc st0,
-  wf (init t0) (h1 ++ ev :: h2) = true ->
-  run (init t0) h1 = Some s1 -> run (init t0) (h1 ++ ev :: h2) = Some s2 ->
-  birth s1 ev = Some (id, sc, st0) ->
-  forall e, In e (entries s2) -> eid e = id ->
-    esch e = sc /\ (enxt e, eprv e) = track next sc st0 h2 /\
-    of_id id (starts s2) = map (fun aw => (id, fst aw, snd aw)) (tstarts sc st0 h2).
-Admitted.
+Proof.
+  intros t0 h s Hw Hr. destruct (reach _ _ _ Hw Hr) as [H1 _].
+  destruct (running s) eqn:Hrun; [|apply (i1_idle _ _ H1 Hrun)].
+  destruct (i1_run _ _ H1 Hrun) as [Hso Htm]. split.
+  - intros e n Hin Hn. rewrite Htm. eapply sorted_head; eassumption.
+  - intros T HT. rewrite Htm in HT. destruct (entries s) as [|e l]; [discriminate|].
+    exists e. split; [left; reflexivity|exact HT].
+Qed.
 
 (* --- Remove / Stop are clean -------------------------------------------------------------- *)
+Definition absent (id : Z) (s : state) : Prop :=
+  id <= nextID s /\ forall e, In e (entries s) -> eid e <> id.
+
+Lemma absent_step id (s s' : state) ev o : inv1 s -> absent id s -> step s ev = Some (s', o) ->
+  absent id s' /\ exists new, starts s' = starts s ++ new /\ of_id id new = [].
+Proof.
+  intros Hi [Hle Hab] Hs. pose proof (shape _ next _ _ _ _ Hi Hs) as Hsh. unfold absent.
+  assert (Hnil : forall l : list (Z * Z * Z), l = l ++ [] /\ of_id id [] = []).
+  { intro l. rewrite app_nil_r. auto. }
+  destruct Hsh as [t Hr Hr' He Hst Hid Hc Ho Hcx
+                  |w Hr Hr' He Hst Hid Hc Ho Hcx
+                  |t sc Hr Hr' He Hst Hid Hc Ho Hcx
+                  |t id' Hr Hr' He Hst Hid Hc Ho Hcx
+                  |ev _ ->
+                  |Hr Hr' Ht He Hst Hid Hc Ho Hcx
+                  |sc Hr Hr' Ht He Hst Hid Hc Ho Hcx
+                  |id' Hr Hr' Ht He Hst Hid Hc Ho Hcx
+                  |Hr Hr' Ht He Hst Hid Hc Ho Hcx
+                  |Hpos Hr' Ht He Hst Hid Hc Ho Hcx
+                  |c Hr' Ht He Hst Hid Hc Ho Hcx]; rewrite ?Hid, ?Hst, ?He.
+  - split; [split; [exact Hle|]|exists []; apply Hnil].
+    intros e Hin. apply -> sort_in in Hin. apply in_map_iff in Hin as [e0 [<- Hin]]. exact (Hab e0 Hin).
+  - split; [split; [exact Hle|]|].
+    + intros e Hin. apply -> sort_in in Hin. apply in_map_iff in Hin as [e0 [<- Hin]].
+      rewrite fire_eid. exact (Hab e0 Hin).
+    + eexists. split; [reflexivity|]. apply of_id_new_notin.
+      intro Hin. apply in_map_iff in Hin as [e [Heq Hin]]. exact (Hab e Hin Heq).
+  - split; [split; [lia|]|exists []; apply Hnil].
+    intros e Hin. apply -> sort_in in Hin. apply in_app_or in Hin as [Hin|[<-|[]]]; [exact (Hab e Hin)|].
+    cbn [eid]. lia.
+  - split; [split; [exact Hle|]|exists []; apply Hnil].
+    intros e Hin. apply -> sort_in in Hin. apply filter_In in Hin as [Hin _]. exact (Hab e Hin).
+  - split; [split; assumption|exists []; apply Hnil].
+  - split; [split; assumption|exists []; apply Hnil].
+  - split; [split; [lia|]|exists []; apply Hnil].
+    intros e Hin. apply in_app_or in Hin as [Hin|[<-|[]]]; [exact (Hab e Hin)|]. cbn [eid]. lia.
+  - split; [split; [exact Hle|]|exists []; apply Hnil].
+    intros e Hin. apply filter_In in Hin as [Hin _]. exact (Hab e Hin).
+  - split; [split; assumption|exists []; apply Hnil].
+  - split; [split; assumption|exists []; apply Hnil].
+  - split; [split; assumption|exists []; apply Hnil].
+Qed.
+
+Lemma absent_run id h (s0 s' : state) : inv1 s0 -> absent id s0 -> wf s0 h = true -> run s0 h = Some s' ->
+  absent id s' /\ exists new, starts s' = starts s0 ++ new /\ of_id id new = [].
+Proof.
+  intros Hi Hab Hw Hr.
+  pose (P := fun s : state => inv1 s /\ absent id s /\
+                              exists new, starts s = starts s0 ++ new /\ of_id id new = []).
+  assert (HP : P s').
+  { apply (run_ind _ next P) with (h := h) (s := s0); [|split; [exact Hi|split; [exact Hab|]]|exact Hw|exact Hr].
+    - intros s ev s1 o [Hi1 [Hab1 [new [Hst Hof]]]] _ Hs.
+      destruct (absent_step _ _ _ _ _ Hi1 Hab1 Hs) as [Hab2 [new' [Hst' Hof']]].
+      split; [eapply inv1_step; eassumption|split; [exact Hab2|]].
+      exists (new ++ new'). split; [rewrite Hst', Hst, app_assoc; reflexivity|].
+      rewrite of_id_app, Hof, Hof'. reflexivity.
+    - exists []. rewrite app_nil_r. auto. }
+  destruct HP as [_ [H1 H2]]. auto.
+Qed.
+
+(* [id <= nextID s1]: the id is one that Schedule has handed out before (an id that has not been
+   assigned yet would be given to a later entry) *)
 Theorem remove_clean : forall t0 h1 ev h2 s1 s2 id,
   wf (init t0) (h1 ++ ev :: h2) = true ->
   (ev = RemoveIdle id \/ exists t, ev = Removed t id) ->
   run (init t0) h1 = Some s1 -> run (init t0) (h1 ++ ev :: h2) = Some s2 ->
+  id <= nextID s1 ->
   exists new, starts s2 = starts s1 ++ new /\ of_id id new = [] /\
               forall e, In e (entries s2) -> eid e <> id.
-Admitted.
+Proof.
+  intros t0 h1 ev h2 s1 s2 id Hw Hev Hr1 Hr2 Hle.
+  destruct (split3 _ _ _ _ _ _ Hw Hr1 Hr2) as [Hw1 [sE [o [Henv [Hs [HwE HrE]]]]]].
+  destruct (reach _ _ _ Hw1 Hr1) as [H1 _].
+  pose proof (shape _ next _ _ _ _ H1 Hs) as Hsh.
+  assert (HabE : absent id sE /\ starts sE = starts s1).
+  { destruct Hev as [-> |[t ->]]; inversion Hsh as [| | | |? Hd| | | | | |]; subst.
+    - destruct Hd as [Hd|[Hd|[Hd|Hd]]]; discriminate Hd.
+    - split; [split; [lia|]|assumption].
+      intros e Hin. match goal with H : entries sE = _ |- _ => rewrite H in Hin end.
+      apply filter_In in Hin as [_ Hne]. apply negb_true_iff in Hne. apply Z.eqb_neq. exact Hne.
+    - split; [split; [lia|]|assumption].
+      intros e Hin. match goal with H : entries sE = _ |- _ => rewrite H in Hin end.
+      apply -> sort_in in Hin.
+      apply filter_In in Hin as [_ Hne]. apply negb_true_iff in Hne. apply Z.eqb_neq. exact Hne.
+    - destruct Hd as [Hd|[Hd|[Hd|Hd]]]; discriminate Hd. }
+  destruct HabE as [HabE HstE].
+  destruct (absent_run id h2 sE s2 (inv1_step _ next _ _ _ _ H1 Hs) HabE HwE HrE) as [[_ Hab2] [new [Hst Hof]]].
+  exists new. rewrite <- HstE. auto.
+Qed.
+
+Lemma idle_run h (s s' : state) : running s = false -> existsb is_start h = false ->
+  run s h = Some s' -> starts s' = starts s /\ running s' = false.
+Proof.
+  revert s. induction h as [|ev h IH]; intros s Hr Hns Hrun; cbn [Model.run existsb] in *.
+  - inversion Hrun; subst. auto.
+  - apply orb_false_iff in Hns as [Hev Hns].
+    destruct (step s ev) as [[s1 o]|] eqn:Hs; [|discriminate].
+    assert (H1 : starts s1 = starts s /\ running s1 = false).
+    { destruct ev; cbn [is_start] in Hev; try discriminate Hev;
+        cbn [Model.step] in Hs; rewrite ?Hr in Hs; cbn [negb] in Hs; try discriminate Hs;
+        try (destruct (outstanding s <=? 0); [discriminate Hs|]);
+        inversion Hs; subst; cbn [starts running]; auto. }
+    destruct H1 as [Hst1 Hr1]. destruct (IH s1 Hr1 Hns Hrun) as [Hst Hr']. rewrite Hst, Hst1. auto.
+Qed.
 
 Theorem stop_clean : forall t0 h1 h2 s1 s2,
   wf (init t0) (h1 ++ Stop :: h2) = true ->
   existsb is_start h2 = false ->
   run (init t0) h1 = Some s1 -> run (init t0) (h1 ++ Stop :: h2) = Some s2 ->
   starts s2 = starts s1.
-Admitted.
+Proof.
+  intros t0 h1 h2 s1 s2 Hw Hns Hr1 Hr2.
+  destruct (split3 _ _ _ _ _ _ Hw Hr1 Hr2) as [Hw1 [sE [o [Henv [Hs [HwE HrE]]]]]].
+  assert (HE : starts sE = starts s1 /\ running sE = false).
+  { cbn [Model.step] in Hs. destruct (running s1); cbn [negb] in Hs; [|discriminate Hs].
+    inversion Hs; subst. cbn [starts running]. auto. }
+  destruct HE as [HstE HrE']. destruct (idle_run _ _ _ HrE' Hns HrE) as [Hst _]. congruence.
+Qed.
 
 (* --- Entries is exact --------------------------------------------------------------------- *)
 Theorem entries_exact : forall t0 h ev s s' o,
@@ -138,13 +485,125 @@ Theorem entries_exact : forall t0 h ev s s' o,
     (forall i n p, In (i, n, p) l <->
                    exists e, In e (entries s) /\ eid e = i /\ enxt e = n /\ eprv e = p) /\
     (forall i n p, In (i, n, p) l -> p = last_opt (acts_of i (starts s))).
-Admitted.
+Proof.
+  intros t0 h ev s s' o Hw Hr Hev Hs. destruct (reach _ _ _ Hw Hr) as [H1 [H2 _]].
+  assert (Ho : s' = s /\ o = OSnap (snapshot_of (entries s))).
+  { destruct Hev as [-> | ->]; cbn [Model.step] in Hs; destruct (running s); cbn [negb] in Hs;
+      try discriminate Hs; inversion Hs; subst; auto. }
+  destruct Ho as [-> ->]. split; [reflexivity|]. exists (snapshot_of (entries s)).
+  split; [reflexivity|]. unfold snapshot_of. split; [|split].
+  - rewrite map_map. cbn [fst]. apply (i1_nodup _ _ H1).
+  - intros i n p. rewrite in_map_iff. split.
+    + intros [e [Heq Hin]]. inversion Heq; subst. exists e. auto.
+    + intros [e [Hin [<- [<- <-]]]]. exists e. auto.
+  - intros i n p Hin. apply in_map_iff in Hin as [e [Heq Hin]]. inversion Heq; subst.
+    apply (i2_prev _ H2 _ Hin).
+Qed.
 
 (* --- the context returned by Stop --------------------------------------------------------- *)
+Lemma counter_run h : forall (s s' : state), inv1 s -> wf s h = true -> run s h = Some s' ->
+  outstanding s' - Z.of_nat (length (starts s')) =
+  outstanding s - Z.of_nat (length (starts s)) - Z.of_nat (length (filter is_jobret h)).
+Proof.
+  induction h as [|ev h IH]; intros s s' Hi Hw Hr; cbn [Model.wf Model.run] in *.
+  - inversion Hr; subst. cbn. lia.
+  - apply andb_true_iff in Hw as [_ Hw].
+    destruct (step s ev) as [[s1 o]|] eqn:Hs; [|discriminate].
+    rewrite (IH s1 s' (inv1_step _ next _ _ _ _ Hi Hs) Hw Hr).
+    pose proof (shape _ next _ _ _ _ Hi Hs) as Hsh.
+    destruct Hsh as [t Hr0 Hr' He Hst Hid Hc Ho Hcx
+                    |w Hr0 Hr' He Hst Hid Hc Ho Hcx
+                    |t sc Hr0 Hr' He Hst Hid Hc Ho Hcx
+                    |t id Hr0 Hr' He Hst Hid Hc Ho Hcx
+                    |ev Hd ->
+                    |Hr0 Hr' Ht He Hst Hid Hc Ho Hcx
+                    |sc Hr0 Hr' Ht He Hst Hid Hc Ho Hcx
+                    |id Hr0 Hr' Ht He Hst Hid Hc Ho Hcx
+                    |Hr0 Hr' Ht He Hst Hid Hc Ho Hcx
+                    |Hpos Hr' Ht He Hst Hid Hc Ho Hcx
+                    |c Hr' Ht He Hst Hid Hc Ho Hcx];
+      try (destruct Hd as [-> |[-> |[-> | ->]]]); cbn [filter is_jobret length]; rewrite ?Ho, ?Hst;
+      try lia.
+    rewrite app_length, map_length. lia.
+Qed.
+
 Theorem stop_ctx_counter : forall t0 h s, wf (init t0) h = true -> run (init t0) h = Some s ->
   outstanding s = Z.of_nat (length (starts s)) - Z.of_nat (length (filter is_jobret h)) /\
   0 <= outstanding s.
-Admitted.
+Proof.
+  intros t0 h s Hw Hr. destruct (reach _ _ _ Hw Hr) as [_ [_ [H0 _]]]. split; [|exact H0].
+  pose proof (counter_run h _ _ (inv1_init _ t0) Hw Hr) as H. cbn [init outstanding starts length] in H. lia.
+Qed.
+
+Lemma nth_all_true (l : list bool) k : (k < length l)%nat -> nth k (map (fun _ => true) l) false = true.
+Proof.
+  revert k. induction l as [|b l IH]; intros k Hk; cbn [length] in Hk; [lia|].
+  destruct k; cbn [map nth]; [reflexivity|]. apply IH. lia.
+Qed.
+
+Lemma ctx_step (s s' : state) ev o k : inv1 s -> step s ev = Some (s', o) -> (k < length (ctxs s))%nat ->
+  (k < length (ctxs s'))%nat /\
+  (nth k (ctxs s) false = true -> nth k (ctxs s') false = true) /\
+  (nth k (ctxs s') false = true -> nth k (ctxs s) false = true \/ outstanding s' = 0).
+Proof.
+  intros Hi Hs Hk. pose proof (shape _ next _ _ _ _ Hi Hs) as Hsh.
+  destruct Hsh as [t Hr0 Hr' He Hst Hid Hc Ho Hcx
+                  |w Hr0 Hr' He Hst Hid Hc Ho Hcx
+                  |t sc Hr0 Hr' He Hst Hid Hc Ho Hcx
+                  |t id Hr0 Hr' He Hst Hid Hc Ho Hcx
+                  |ev Hd ->
+                  |Hr0 Hr' Ht He Hst Hid Hc Ho Hcx
+                  |sc Hr0 Hr' Ht He Hst Hid Hc Ho Hcx
+                  |id Hr0 Hr' Ht He Hst Hid Hc Ho Hcx
+                  |Hr0 Hr' Ht He Hst Hid Hc Ho Hcx
+                  |Hpos Hr' Ht He Hst Hid Hc Ho Hcx
+                  |c Hr' Ht He Hst Hid Hc Ho Hcx]; rewrite ?Hcx; auto.
+  - rewrite app_length, app_nth1 by exact Hk. cbn [length]. split; [lia|auto].
+  - rewrite app_length, app_nth1 by exact Hk. cbn [length]. split; [lia|auto].
+  - rewrite Ho. destruct (outstanding s - 1 =? 0) eqn:Ez; [|auto].
+    rewrite map_length. split; [exact Hk|]. rewrite nth_all_true by exact Hk.
+    apply Z.eqb_eq in Ez. auto.
+Qed.
+
+Lemma all_true_nth (l : list bool) k : Forall (fun b => b = true) l -> (k < length l)%nat ->
+  nth k l false = true.
+Proof. intros Hf Hk. rewrite Forall_forall in Hf. apply Hf. apply nth_In. exact Hk. Qed.
+
+Lemma ctx_run h : forall (s s2 : state) k, inv1 s -> inv3 s -> (k < length (ctxs s))%nat ->
+  wf s h = true -> run s h = Some s2 ->
+  (nth k (ctxs s2) false = true <->
+   nth k (ctxs s) false = true \/
+   exists ha hb sa, h = ha ++ hb /\ run s ha = Some sa /\ outstanding sa = 0).
+Proof.
+  induction h as [|ev h IH]; intros s s2 k Hi H3 Hk Hw Hr; cbn [Model.wf Model.run] in *.
+  - inversion Hr; subst s2. split; [auto|].
+    intros [Hn|[ha [hb [sa [Hsplit [Hra Hz]]]]]]; [exact Hn|].
+    symmetry in Hsplit. apply app_eq_nil in Hsplit as [-> ->]. cbn [Model.run] in Hra.
+    inversion Hra; subst sa. apply all_true_nth; [apply (proj2 H3 Hz)|exact Hk].
+  - apply andb_true_iff in Hw as [_ Hw].
+    destruct (step s ev) as [[s1 o]|] eqn:Hs; [|discriminate].
+    destruct (ctx_step _ _ _ _ k Hi Hs Hk) as [Hk1 [Hmono Hchg]].
+    pose proof (inv1_step _ next _ _ _ _ Hi Hs) as Hi1.
+    pose proof (inv3_step _ _ _ _ Hi H3 Hs) as H31.
+    rewrite (IH s1 s2 k Hi1 H31 Hk1 Hw Hr). split.
+    + intros [Hn|[ha [hb [sa [-> [Hra Hz]]]]]].
+      * destruct (Hchg Hn) as [Hn0|Hz]; [left; exact Hn0|].
+        right. exists [ev], h, s1. split; [reflexivity|].
+        split; [cbn [Model.run]; rewrite Hs; reflexivity|exact Hz].
+      * right. exists (ev :: ha), hb, sa. split; [reflexivity|].
+        split; [cbn [Model.run]; rewrite Hs; exact Hra|exact Hz].
+    + intros [Hn|[ha [hb [sa [Hsplit [Hra Hz]]]]]].
+      * left. apply Hmono. exact Hn.
+      * destruct ha as [|ev' ha].
+        -- cbn [Model.run] in Hra. inversion Hra; subst sa. left. apply Hmono.
+           apply all_true_nth; [apply (proj2 H3 Hz)|exact Hk].
+        -- cbn [app] in Hsplit. inversion Hsplit; subst ev' h. cbn [Model.run] in Hra.
+           rewrite Hs in Hra. right. exists ha, hb, sa. auto.
+Qed.
+
+Lemma run_mid h1 ev ha (s0 s1 sE : state) o : run s0 h1 = Some s1 -> step s1 ev = Some (sE, o) ->
+  run s0 (h1 ++ ev :: ha) = run sE ha.
+Proof. intros H1 Hs. rewrite run_app, H1. cbn [Model.run]. rewrite Hs. reflexivity. Qed.
 
 Theorem stop_ctx : forall t0 h1 ev h2 s1 s2,
   wf (init t0) (h1 ++ ev :: h2) = true -> (ev = Stop \/ ev = StopIdle) ->
@@ -152,7 +611,28 @@ Theorem stop_ctx : forall t0 h1 ev h2 s1 s2,
   (nth (length (ctxs s1)) (ctxs s2) false = true <->
    exists h2a h2b sa, h2 = h2a ++ h2b /\ run (init t0) (h1 ++ ev :: h2a) = Some sa /\
                       outstanding sa = 0).
-Admitted.
+Proof.
+  intros t0 h1 ev h2 s1 s2 Hw Hev Hr1 Hr2.
+  destruct (split3 _ _ _ _ _ _ Hw Hr1 Hr2) as [Hw1 [sE [o [Henv [Hs [HwE HrE]]]]]].
+  pose proof (reach _ _ _ Hw1 Hr1) as Hinv.
+  destruct (inv_step _ _ _ _ Hinv Henv Hs) as [H1E [_ H3E]].
+  assert (HE : ctxs sE = ctxs s1 ++ [outstanding s1 =? 0] /\ outstanding sE = outstanding s1).
+  { destruct Hev as [-> | ->]; cbn [Model.step] in Hs; destruct (running s1); cbn [negb] in Hs;
+      try discriminate Hs; inversion Hs; subst; cbn [ctxs outstanding]; auto. }
+  destruct HE as [HcE HoE].
+  assert (Hk : (length (ctxs s1) < length (ctxs sE))%nat).
+  { rewrite HcE, app_length. cbn [length]. lia. }
+  rewrite (ctx_run h2 sE s2 _ H1E H3E Hk HwE HrE).
+  rewrite HcE at 1. rewrite nth_middle. split.
+  - intros [Hz|[ha [hb [sa [-> [Hra Hz]]]]]].
+    + exists [], h2, sE. split; [reflexivity|].
+      split; [rewrite (run_mid _ _ _ _ _ _ _ Hr1 Hs); reflexivity|].
+      apply Z.eqb_eq in Hz. lia.
+    + exists ha, hb, sa. split; [reflexivity|].
+      split; [rewrite (run_mid _ _ _ _ _ _ _ Hr1 Hs); exact Hra|exact Hz].
+  - intros [ha [hb [sa [-> [Hra Hz]]]]]. right. exists ha, hb, sa.
+    rewrite (run_mid _ _ _ _ _ _ _ Hr1 Hs) in Hra. auto.
+Qed.
 
 (* --- restart ------------------------------------------------------------------------------ *)
 Theorem restart_recomputes : forall t0 h t s s',
@@ -162,21 +642,364 @@ Theorem restart_recomputes : forall t0 h t s s',
   (forall e', In e' (entries s') ->
      exists e, In e (entries s) /\ e' = mkE (eid e) (esch e) (next (esch e) t) (eprv e)) /\
   (forall e' n, In e' (entries s') -> enxt e' = Some n -> t < n).
-Admitted.
+Proof.
+  intros t0 h t s s' Hw Hr Hr'.
+  destruct (run_snoc _ next _ _ _ _ Hw Hr') as [s1 [o [Hr1 [Hw1 [Henv Hs]]]]].
+  rewrite Hr in Hr1. inversion Hr1; subst s1; clear Hr1.
+  destruct (reach _ _ _ Hw1 Hr) as [H1 _].
+  destruct (shape_start _ _ _ (shape _ next _ _ _ _ H1 Hs)) as [_ [_ [He _]]].
+  split; [|split].
+  - intros e Hin. rewrite He. apply sort_in. apply (in_map (restart next t)) in Hin. exact Hin.
+  - intros e' Hin. rewrite He in Hin. apply -> sort_in in Hin.
+    apply in_map_iff in Hin as [e [<- Hin]]. exists e. auto.
+  - intros e' n Hin Hn. rewrite He in Hin. apply -> sort_in in Hin.
+    apply in_map_iff in Hin as [e [<- Hin]]. cbn [restart enxt] in Hn. apply next_later in Hn. exact Hn.
+Qed.
+
+Definition late (t : Z) (s : state) : Prop :=
+  t <= clk s /\ forall e n, In e (entries s) -> enxt e = Some n -> t < n.
+
+Lemma late_step t (s s' : state) ev o : inv1 s -> late t s -> env_ok s ev = true ->
+  step s ev = Some (s', o) ->
+  late t s' /\ exists new, starts s' = starts s ++ new /\ forall x, In x new -> t < sact x.
+Proof.
+  intros Hi [Hc0 Hl] Henv Hs. pose proof (shape _ next _ _ _ _ Hi Hs) as Hsh. unfold late.
+  assert (Hnil : forall l : list (Z * Z * Z), l = l ++ [] /\ forall x, In x [] -> t < sact x).
+  { intro l. rewrite app_nil_r. split; [reflexivity|intros x []]. }
+  destruct Hsh as [t' Hr Hr' He Hst Hid Hc Ho Hcx
+                  |w Hr Hr' He Hst Hid Hc Ho Hcx
+                  |t' sc Hr Hr' He Hst Hid Hc Ho Hcx
+                  |t' id' Hr Hr' He Hst Hid Hc Ho Hcx
+                  |ev _ ->
+                  |Hr Hr' Ht He Hst Hid Hc Ho Hcx
+                  |sc Hr Hr' Ht He Hst Hid Hc Ho Hcx
+                  |id' Hr Hr' Ht He Hst Hid Hc Ho Hcx
+                  |Hr Hr' Ht He Hst Hid Hc Ho Hcx
+                  |Hpos Hr' Ht He Hst Hid Hc Ho Hcx
+                  |c Hr' Ht He Hst Hid Hc Ho Hcx]; cbn [env_ok] in Henv; rewrite ?Hst, ?He, ?Hc.
+  - apply Z.leb_le in Henv. split; [split; [lia|]|exists []; apply Hnil].
+    intros e n Hin Hn. apply -> sort_in in Hin. apply in_map_iff in Hin as [e0 [<- Hin]].
+    cbn [restart enxt] in Hn. apply next_later in Hn. lia.
+  - apply andb_true_iff in Henv as [Henv _]. apply Z.leb_le in Henv. split; [split; [lia|]|].
+    + intros e n Hin Hn. apply -> sort_in in Hin. apply in_map_iff in Hin as [e0 [<- Hin]].
+      destruct (due_at w e0) eqn:Hd.
+      * destruct (due_fire _ next _ _ Hd) as [Hf _]. rewrite Hf in Hn. cbn [enxt] in Hn.
+        apply next_later in Hn. lia.
+      * rewrite (not_due_fire _ next _ _ Hd) in Hn. eapply Hl; eassumption.
+    + eexists. split; [reflexivity|]. intros x Hx. apply in_map_iff in Hx as [e [<- Hin]].
+      apply filter_In in Hin as [Hin Hd]. destruct (due_fire _ next _ _ Hd) as [_ [Hn _]].
+      cbn. eapply Hl; eassumption.
+  - apply Z.leb_le in Henv. split; [split; [lia|]|exists []; apply Hnil].
+    intros e n Hin Hn. apply -> sort_in in Hin. apply in_app_or in Hin as [Hin|[<-|[]]].
+    + eapply Hl; eassumption.
+    + cbn [enxt] in Hn. apply next_later in Hn. lia.
+  - apply Z.leb_le in Henv. split; [split; [lia|]|exists []; apply Hnil].
+    intros e n Hin Hn. apply -> sort_in in Hin. apply filter_In in Hin as [Hin _]. eapply Hl; eassumption.
+  - split; [split; assumption|exists []; apply Hnil].
+  - split; [split; assumption|exists []; apply Hnil].
+  - split; [split; [assumption|]|exists []; apply Hnil].
+    intros e n Hin Hn. apply in_app_or in Hin as [Hin|[<-|[]]]; [eapply Hl; eassumption|discriminate Hn].
+  - split; [split; [assumption|]|exists []; apply Hnil].
+    intros e n Hin Hn. apply filter_In in Hin as [Hin _]. eapply Hl; eassumption.
+  - split; [split; assumption|exists []; apply Hnil].
+  - split; [split; assumption|exists []; apply Hnil].
+  - apply andb_true_iff in Henv as [Henv _]. apply Z.leb_le in Henv.
+    split; [split; [lia|assumption]|exists []; apply Hnil].
+Qed.
 
 Theorem restart_skips : forall t0 h1 t h2 s1 s2,
   wf (init t0) (h1 ++ Start t :: h2) = true ->
   run (init t0) h1 = Some s1 -> run (init t0) (h1 ++ Start t :: h2) = Some s2 ->
   exists new, starts s2 = starts s1 ++ new /\ forall i a w, In (i, a, w) new -> t < a.
-Admitted.
+Proof.
+  intros t0 h1 t h2 s1 s2 Hw Hr1 Hr2.
+  destruct (split3 _ _ _ _ _ _ Hw Hr1 Hr2) as [Hw1 [sE [o [Henv [Hs [HwE HrE]]]]]].
+  destruct (reach _ _ _ Hw1 Hr1) as [H1 _].
+  destruct (shape_start _ _ _ (shape _ next _ _ _ _ H1 Hs)) as [_ [_ [He [Hst [_ Hc]]]]].
+  pose (P := fun s : state => inv1 s /\ late t s /\
+                              exists new, starts s = starts sE ++ new /\ forall x, In x new -> t < sact x).
+  assert (HP : P s2).
+  { apply (run_ind _ next P) with (h := h2) (s := sE); [| |exact HwE|exact HrE].
+    - intros s ev s' o' [Hi1 [Hl1 [new [Hst1 Hn1]]]] Henv1 Hs1.
+      destruct (late_step _ _ _ _ _ Hi1 Hl1 Henv1 Hs1) as [Hl2 [new' [Hst' Hn']]].
+      split; [eapply inv1_step; eassumption|split; [exact Hl2|]].
+      exists (new ++ new'). split; [rewrite Hst', Hst1, app_assoc; reflexivity|].
+      intros x Hx. apply in_app_or in Hx as [Hx|Hx]; auto.
+    - split; [eapply inv1_step; eassumption|split].
+      + split; [lia|]. intros e n Hin Hn. rewrite He in Hin. apply -> sort_in in Hin.
+        apply in_map_iff in Hin as [e0 [<- Hin]]. cbn [restart enxt] in Hn.
+        apply next_later in Hn. exact Hn.
+      + exists []. rewrite app_nil_r. split; [reflexivity|intros x []]. }
+  destruct HP as [_ [_ [new [Hst2 Hn2]]]]. exists new. rewrite Hst2, Hst. split; [reflexivity|].
+  intros i a w Hin. apply (Hn2 _ Hin).
+Qed.
+
+(* --- independence ----------------------------------------------------------------------- *)
+Lemma nextID_mono (s s' : state) ev o : inv1 s -> step s ev = Some (s', o) -> nextID s <= nextID s'.
+Proof.
+  intros Hi Hs. pose proof (shape _ next _ _ _ _ Hi Hs) as Hsh.
+  destruct Hsh as [t Hr Hr' He Hst Hid Hc Ho Hcx
+                  |w Hr Hr' He Hst Hid Hc Ho Hcx
+                  |t sc Hr Hr' He Hst Hid Hc Ho Hcx
+                  |t id Hr Hr' He Hst Hid Hc Ho Hcx
+                  |ev _ ->
+                  |Hr Hr' Ht He Hst Hid Hc Ho Hcx
+                  |sc Hr Hr' Ht He Hst Hid Hc Ho Hcx
+                  |id Hr Hr' Ht He Hst Hid Hc Ho Hcx
+                  |Hr Hr' Ht He Hst Hid Hc Ho Hcx
+                  |Hpos Hr' Ht He Hst Hid Hc Ho Hcx
+                  |c Hr' Ht He Hst Hid Hc Ho Hcx]; lia.
+Qed.
+
+Definition wake_rec (ev : event) (nx : option Z) : list (Z * Z) :=
+  match ev, nx with
+  | Wake w, Some a => if a <=? w then [(a, w)] else []
+  | _, _ => []
+  end.
+
+Lemma indep_step (s s' : state) ev o e0 : inv1 s -> step s ev = Some (s', o) -> In e0 (entries s) ->
+  (forall e', In e' (entries s') -> eid e' = eid e0 ->
+     esch e' = esch e0 /\ (enxt e', eprv e') = efire next (esch e0) (enxt e0, eprv e0) ev) /\
+  of_id (eid e0) (starts s') =
+    of_id (eid e0) (starts s) ++ map (fun aw => (eid e0, fst aw, snd aw)) (wake_rec ev (enxt e0)).
+Proof.
+  intros Hi Hs Hin0. pose proof (shape _ next _ _ _ _ Hi Hs) as Hsh.
+  pose proof (i1_nodup _ _ Hi) as Hnd.
+  assert (Hsame : forall e', In e' (entries s) -> eid e' = eid e0 -> e' = e0).
+  { intros e' Hin Heq. eapply nodup_eid_inj; eassumption. }
+  destruct Hsh as [t Hr Hr' He Hst Hid Hc Ho Hcx
+                  |w Hr Hr' He Hst Hid Hc Ho Hcx
+                  |t sc Hr Hr' He Hst Hid Hc Ho Hcx
+                  |t id Hr Hr' He Hst Hid Hc Ho Hcx
+                  |ev Hd ->
+                  |Hr Hr' Ht He Hst Hid Hc Ho Hcx
+                  |sc Hr Hr' Ht He Hst Hid Hc Ho Hcx
+                  |id Hr Hr' Ht He Hst Hid Hc Ho Hcx
+                  |Hr Hr' Ht He Hst Hid Hc Ho Hcx
+                  |Hpos Hr' Ht He Hst Hid Hc Ho Hcx
+                  |c Hr' Ht He Hst Hid Hc Ho Hcx];
+    try (destruct Hd as [->|[->|[->| ->]]]); cbn [wake_rec map efire]; rewrite ?Hst, ?app_nil_r;
+    try (split; [|reflexivity]); rewrite ?He.
+  - (* Start *)
+    intros e' Hin Heq. apply -> sort_in in Hin. apply in_map_iff in Hin as [e1 [<- Hin]].
+    cbn [restart eid] in Heq. rewrite (Hsame e1 Hin Heq). cbn [restart esch enxt eprv fst snd]. auto.
+  - (* Wake *)
+    split.
+    + intros e' Hin Heq. apply -> sort_in in Hin. apply in_map_iff in Hin as [e1 [<- Hin]].
+      rewrite fire_eid in Heq. rewrite (Hsame e1 Hin Heq). rewrite fire_esch. split; [reflexivity|].
+      unfold fire. cbn [fst snd]. destruct (enxt e0) as [a|] eqn:Ea; [|rewrite Ea; reflexivity].
+      destruct (a <=? w); [reflexivity|rewrite Ea; reflexivity].
+    + rewrite of_id_app. f_equal. rewrite (of_id_new_in _ _ _ _ Hnd Hin0).
+      unfold due_at, srec, act. destruct (enxt e0) as [a|]; [|reflexivity].
+      destruct (a <=? w); reflexivity.
+  - (* Added *)
+    intros e' Hin Heq. apply -> sort_in in Hin. apply in_app_or in Hin as [Hin|[<-|[]]].
+    + rewrite (Hsame e' Hin Heq). auto.
+    + cbn [eid] in Heq. pose proof (i1_ids _ _ Hi e0 Hin0). lia.
+  - (* Removed *)
+    intros e' Hin Heq. apply -> sort_in in Hin. apply filter_In in Hin as [Hin _].
+    rewrite (Hsame e' Hin Heq). auto.
+  - intros e' Hin Heq. rewrite (Hsame e' Hin Heq). auto.
+  - intros e' Hin Heq. rewrite (Hsame e' Hin Heq). auto.
+  - intros e' Hin Heq. rewrite (Hsame e' Hin Heq). auto.
+  - intros e' Hin Heq. rewrite (Hsame e' Hin Heq). auto.
+  - intros e' Hin Heq. rewrite (Hsame e' Hin Heq). auto.
+  - (* ScheduleIdle *)
+    intros e' Hin Heq. apply in_app_or in Hin as [Hin|[<-|[]]].
+    + rewrite (Hsame e' Hin Heq). auto.
+    + cbn [eid] in Heq. pose proof (i1_ids _ _ Hi e0 Hin0). lia.
+  - intros e' Hin Heq. apply filter_In in Hin as [Hin _]. rewrite (Hsame e' Hin Heq). auto.
+  - intros e' Hin Heq. rewrite (Hsame e' Hin Heq). auto.
+  - intros e' Hin Heq. rewrite (Hsame e' Hin Heq). auto.
+  - intros e' Hin Heq. rewrite (Hsame e' Hin Heq). auto.
+Qed.
+
+Lemma indep_run h2 : forall (s s2 : state) e0, inv1 s -> In e0 (entries s) ->
+  wf s h2 = true -> run s h2 = Some s2 ->
+  forall e, In e (entries s2) -> eid e = eid e0 ->
+    esch e = esch e0 /\ (enxt e, eprv e) = track next (esch e0) (enxt e0, eprv e0) h2 /\
+    of_id (eid e0) (starts s2) =
+      of_id (eid e0) (starts s) ++
+      map (fun aw => (eid e0, fst aw, snd aw)) (tstarts next (esch e0) (enxt e0, eprv e0) h2).
+Proof.
+  induction h2 as [|ev h IH]; intros s s2 e0 Hi Hin0 Hw Hr e Hin Heq; cbn [Model.wf Model.run] in *.
+  - inversion Hr; subst s2. rewrite (nodup_eid_inj _ _ _ (i1_nodup _ _ Hi) Hin Hin0 Heq).
+    cbn [track fold_left tstarts map]. rewrite app_nil_r. auto.
+  - apply andb_true_iff in Hw as [_ Hw].
+    destruct (step s ev) as [[s1 o]|] eqn:Hs; [|discriminate].
+    pose proof (inv1_step _ next _ _ _ _ Hi Hs) as Hi1.
+    destruct (indep_step _ _ _ _ _ Hi Hs Hin0) as [HA HB].
+    destruct (existsb (fun z => eid z =? eid e0) (entries s1)) eqn:Hex.
+    + apply existsb_exists in Hex as [e1 [Hin1 Heq1]]. apply Z.eqb_eq in Heq1.
+      destruct (HA e1 Hin1 Heq1) as [Hsch1 Hst1].
+      assert (Heq' : eid e = eid e1) by congruence.
+      destruct (IH s1 s2 e1 Hi1 Hin1 Hw Hr e Hin Heq') as [H1 [H2 H3]].
+      rewrite Heq1, Hsch1, Hst1 in *.
+      split; [exact H1|]. split; [exact H2|].
+      rewrite H3, HB. cbn [tstarts fst]. rewrite map_app, app_assoc. reflexivity.
+    + exfalso.
+      assert (Hab : absent (eid e0) s1).
+      { split.
+        - pose proof (i1_ids _ _ Hi e0 Hin0). pose proof (nextID_mono _ _ _ _ Hi Hs). lia.
+        - intros z Hz Heqz. assert (Ht : existsb (fun z => eid z =? eid e0) (entries s1) = true).
+          { apply existsb_exists. exists z. split; [exact Hz|apply Z.eqb_eq; exact Heqz]. }
+          congruence. }
+      destruct (absent_run _ _ _ _ Hi1 Hab Hw Hr) as [[_ Hab2] _].
+      exact (Hab2 e Hin Heq).
+Qed.
+
+Theorem independent : forall t0 h1 ev h2 s1 s2 id sc st0,
+  wf (init t0) (h1 ++ ev :: h2) = true ->
+  run (init t0) h1 = Some s1 -> run (init t0) (h1 ++ ev :: h2) = Some s2 ->
+  birth next s1 ev = Some (id, sc, st0) ->
+  forall e, In e (entries s2) -> eid e = id ->
+    esch e = sc /\ (enxt e, eprv e) = track next sc st0 h2 /\
+    of_id id (starts s2) = map (fun aw => (id, fst aw, snd aw)) (tstarts next sc st0 h2).
+Proof.
+  intros t0 h1 ev h2 s1 s2 id sc st0 Hw Hr1 Hr2 Hb e Hin Heq.
+  destruct (split3 _ _ _ _ _ _ Hw Hr1 Hr2) as [Hw1 [sE [o [Henv [Hs [HwE HrE]]]]]].
+  destruct (reach _ _ _ Hw1 Hr1) as [H1 _].
+  pose proof (shape _ next _ _ _ _ H1 Hs) as Hsh.
+  pose proof (inv1_step _ next _ _ _ _ H1 Hs) as H1E.
+  assert (HE : In (mkE id sc (fst st0) (snd st0)) (entries sE) /\ starts sE = starts s1 /\
+               id = nextID s1 + 1).
+  { destruct ev; cbn [birth] in Hb; try discriminate Hb; inversion Hb; subst; clear Hb;
+      inversion Hsh as [| | | |? Hd| | | | | |]; subst;
+      try (destruct Hd as [Hd|[Hd|[Hd|Hd]]]; discriminate Hd); cbn [fst snd].
+    - split; [|auto]. match goal with H : entries sE = _ |- _ => rewrite H end.
+      apply sort_in. apply in_or_app. right. left. reflexivity.
+    - split; [|auto]. match goal with H : entries sE = _ |- _ => rewrite H end.
+      apply in_or_app. right. left. reflexivity. }
+  destruct HE as [HinE [HstE Hid]].
+  destruct (indep_run h2 sE s2 _ H1E HinE HwE HrE e Hin Heq) as [HA [HB HC]].
+  cbn [eid esch enxt eprv] in HA, HB, HC. rewrite <- surjective_pairing in HB, HC.
+  split; [exact HA|]. split; [exact HB|]. rewrite HC.
+  replace (of_id id (starts sE)) with (@nil (Z * Z * Z)); [reflexivity|].
+  symmetry. apply of_id_nil_iff. intros x Hx. rewrite HstE in Hx.
+  pose proof (i1_sids _ _ H1 x Hx). lia.
+Qed.
 
 (* --- the model meets the specification ----------------------------------------------------- *)
-Theorem model_meets_spec : forall t0 h, wf (init t0) h = true ->
-  spec_ok next (trace (init t0) h).
-Admitted.
+Definition rel (s : state) (R : rstate sched) : Prop :=
+  Permutation (entries s) (rents R) /\ rrun R = running s /\ rout R = outstanding s /\
+  rctx R = ctxs s.
 
-(* --- the boolean oracle decides the specification ------------------------------------------ *)
-Theorem oracle_sound : forall tr, oracle next tr = true <-> spec_ok next tr.
-Admitted.
+Lemma fresh_rents (s : state) (R : rstate sched) : inv1 s -> Permutation (entries s) (rents R) ->
+  ~ In (nextID s + 1) (map eid (rents R)).
+Proof.
+  intros Hi HP Hin. apply (Permutation_in _ (Permutation_map eid (Permutation_sym HP))) in Hin.
+  apply in_map_iff in Hin as [e [Heq Hin]]. pose proof (i1_ids _ _ Hi e Hin). lia.
+Qed.
+
+Lemma sim_step (s s' : state) ev o R : inv1 s -> rel s R -> env_ok s ev = true ->
+  step s ev = Some (s', o) ->
+  spec_obs R (ev, o, jobs_of ev o) /\ rel s' (rstep next R (ev, o, jobs_of ev o)).
+Proof.
+  intros Hi [HP [Hrr [Hro Hrc]]] Henv Hs. unfold rel.
+  destruct ev; cbn [Model.step] in Hs; destruct (running s) eqn:Hr; cbn [negb] in Hs;
+    try discriminate Hs.
+  - (* Start *)
+    inversion Hs; subst s' o; clear Hs.
+    cbn [spec_obs rstep jobs_of arm entries running outstanding ctxs rents rrun rout rctx].
+    split; [reflexivity|]. split; [|auto].
+    eapply perm_trans; [apply sort_perm|]. apply (Permutation_map (restart next t)). exact HP.
+  - (* Wake *)
+    destruct (timer s) eqn:Htm; [|discriminate Hs].
+    rewrite (wake_loop_sorted _ next w (entries s) (proj1 (i1_run _ _ Hi Hr))) in Hs.
+    inversion Hs; subst s' o; clear Hs.
+    cbn [spec_obs rstep jobs_of arm entries running outstanding ctxs rents rrun rout rctx].
+    unfold due. rewrite Hrr. rewrite !map_map. cbn [fst snd]. split; [split|].
+    + unfold rrec. cbn [fst]. apply (Permutation_map eid). apply Permutation_filter. exact HP.
+    + intros i c Hin. apply in_map_iff in Hin as [e [Heq Hin]].
+      unfold rrec in Heq. cbn [fst] in Heq. inversion Heq; subst.
+      apply filter_In in Hin as [Hin Hd]. destruct (due_fire _ next _ _ Hd) as [_ [Hn Hle]].
+      exists e, (act sched e). split; [eapply Permutation_in; eassumption|auto].
+    + split; [|split; [reflexivity|split; [|exact Hrc]]].
+      * eapply perm_trans; [apply sort_perm|]. apply Permutation_map. exact HP.
+      * rewrite !map_length. rewrite Hro. reflexivity.
+  - (* Added *)
+    inversion Hs; subst s' o; clear Hs.
+    cbn [spec_obs rstep jobs_of arm entries running outstanding ctxs rents rrun rout rctx].
+    split.
+    + split; [reflexivity|]. eexists _, _. split; [reflexivity|]. apply fresh_rents; assumption.
+    + split; [|auto]. eapply perm_trans; [apply sort_perm|]. apply Permutation_app_tail. exact HP.
+  - (* Removed *)
+    inversion Hs; subst s' o; clear Hs.
+    cbn [spec_obs rstep jobs_of arm entries running outstanding ctxs rents rrun rout rctx].
+    split; [reflexivity|]. split; [|auto].
+    eapply perm_trans; [apply sort_perm|]. unfold remove_entry. apply Permutation_filter. exact HP.
+  - (* Snapshot *)
+    inversion Hs; subst s' o; clear Hs. cbn [spec_obs rstep jobs_of]. split; [|rewrite Hr; auto].
+    split; [reflexivity|]. eexists. split; [reflexivity|]. unfold snapshot_of.
+    apply Permutation_map. exact HP.
+  - (* Stop *)
+    inversion Hs; subst s' o; clear Hs.
+    cbn [spec_obs rstep jobs_of entries running outstanding ctxs rents rrun rout rctx].
+    rewrite Hro, Hrc. auto.
+  - (* ScheduleIdle *)
+    inversion Hs; subst s' o; clear Hs.
+    cbn [spec_obs rstep jobs_of entries running outstanding ctxs rents rrun rout rctx].
+    split.
+    + split; [reflexivity|]. eexists. split; [reflexivity|]. apply fresh_rents; assumption.
+    + split; [|auto]. apply Permutation_app_tail. exact HP.
+  - (* RemoveIdle *)
+    inversion Hs; subst s' o; clear Hs.
+    cbn [spec_obs rstep jobs_of entries running outstanding ctxs rents rrun rout rctx].
+    split; [reflexivity|]. split; [|auto]. unfold remove_entry. apply Permutation_filter. exact HP.
+  - (* EntriesIdle *)
+    inversion Hs; subst s' o; clear Hs. cbn [spec_obs rstep jobs_of]. split; [|rewrite Hr; auto].
+    split; [reflexivity|]. eexists. split; [reflexivity|]. unfold snapshot_of.
+    apply Permutation_map. exact HP.
+  - (* StopIdle *)
+    inversion Hs; subst s' o; clear Hs.
+    cbn [spec_obs rstep jobs_of entries running outstanding ctxs rents rrun rout rctx].
+    rewrite Hro, Hrc. auto.
+  - (* StartNoop *)
+    inversion Hs; subst s' o; clear Hs. cbn [spec_obs rstep jobs_of]. rewrite Hr. auto.
+  - (* JobRet, running *)
+    destruct (outstanding s <=? 0) eqn:Ho; [discriminate Hs|].
+    inversion Hs; subst s' o; clear Hs.
+    cbn [spec_obs rstep jobs_of entries running outstanding ctxs rents rrun rout rctx].
+    rewrite Hro, Hrc. auto.
+  - (* JobRet, idle *)
+    destruct (outstanding s <=? 0) eqn:Ho; [discriminate Hs|].
+    inversion Hs; subst s' o; clear Hs.
+    cbn [spec_obs rstep jobs_of entries running outstanding ctxs rents rrun rout rctx].
+    rewrite Hro, Hrc. auto.
+  - (* CtxPoll *)
+    inversion Hs; subst s' o; clear Hs. cbn [spec_obs rstep jobs_of]. rewrite Hrc, Hr. auto.
+  - inversion Hs; subst s' o; clear Hs. cbn [spec_obs rstep jobs_of]. rewrite Hrc, Hr. auto.
+  - (* Tick, running *)
+    inversion Hs; subst s' o; clear Hs.
+    cbn [spec_obs rstep jobs_of entries running outstanding ctxs rents rrun rout rctx].
+    split; [|auto]. split; [reflexivity|]. intros _ e a Hin Hn.
+    cbn [env_ok] in Henv. apply andb_true_iff in Henv as [_ Henv].
+    destruct (i1_run _ _ Hi Hr) as [Hso Htm].
+    apply (Permutation_in _ (Permutation_sym HP)) in Hin.
+    destruct (sorted_head _ _ _ _ Hso Hin Hn) as [T [HT Hle]].
+    rewrite Htm, HT in Henv. apply Z.ltb_lt in Henv. lia.
+  - (* Tick, idle *)
+    inversion Hs; subst s' o; clear Hs.
+    cbn [spec_obs rstep jobs_of entries running outstanding ctxs rents rrun rout rctx].
+    split; [|auto]. split; [reflexivity|]. intro Hc. congruence.
+Qed.
+
+Lemma sim_run h : forall (s : state) R, inv1 s -> rel s R -> wf s h = true ->
+  spec_from next R (trace next s h).
+Proof.
+  induction h as [|ev h IH]; intros s R Hi HR Hw; cbn [Model.wf trace] in *; [exact I|].
+  apply andb_true_iff in Hw as [Henv Hw].
+  destruct (step s ev) as [[s1 o]|] eqn:Hs; [|discriminate].
+  destruct (sim_step _ _ _ _ _ Hi HR Henv Hs) as [Hobs HR1].
+  cbn [spec_from]. split; [exact Hobs|].
+  apply IH; [eapply inv1_step; eassumption|exact HR1|exact Hw].
+Qed.
+
+Theorem model_meets_spec : forall t0 h, wf (init t0) h = true ->
+  spec_ok next (trace next (init t0) h).
+Proof.
+  intros t0 h Hw. unfold spec_ok. apply sim_run; [apply inv1_init| |exact Hw].
+  unfold rel. cbn [init rinit entries rents running rrun outstanding rout ctxs rctx]. auto.
+Qed.
 
 End Proofs.
